@@ -49,3 +49,16 @@ package snps
 //@   ensures [c19.reported] implies(failed(w), len(sent(cErr)) >= 1 && len(sent(cWriteDone)) == 0)
 //@   ensures [c12.done] implies(!failed(w), len(sent(cErr)) == 0 && len(sent(cWriteDone)) == 1)
 //@   ensures [c12.order] implies(!failed(w), len(written(w)) == 1 + len(recv(cSNPs)) && written(w)[0] == "query,SNPs\n" && forall(k, 0, len(recv(cSNPs)), written(w)[1+k] == snpRow(recv(cSNPs)[posOf(k)].queryname, join(recv(cSNPs)[posOf(k)].snps, "|"))))
+
+//@ # C19 for the aggregate SNP writer.
+//@ func aggregateWriteOutput
+//@   modifies w, cErr, cWriteDone
+//@   loop 1:
+//@     invariant !failed(w) && len(sent(cWriteDone)) == 0
+//@   loop 2:
+//@     invariant !failed(w) && len(sent(cWriteDone)) == 0
+//@   loop 3:
+//@     invariant !failed(w) && len(sent(cWriteDone)) == 0
+//@   loop 4:
+//@     invariant !failed(w) && len(sent(cWriteDone)) == 0
+//@   ensures [c19.reported] implies(failed(w), len(sent(cErr)) >= 1 && len(sent(cWriteDone)) == 0)
